@@ -96,6 +96,8 @@ class Ref:
         self.plan = ("now",)
         self.key = None
         self.text_override = None
+        self.spacing = None  # how the dots of a qualified name are written (' . ', '.\n', ...)
+        self.name = None  # the name textX sees (dots without whitespace)
 
     def sid(self):
         i = f"[{self.idx}]" if self.attr == "refs" else ""
@@ -167,10 +169,16 @@ class World:
 
     # ---- rendering
     def ref_text(self, ref):
+        """Text of a reference as written; ref.name is the name textX sees (a
+        qualified name may be written with whitespace around its dots)."""
         if ref.text_override is not None:
+            ref.name = ref.text_override
             return ref.text_override
         t = ref.target
-        return t.qname() if self.qualified else t.name
+        ref.name = t.qname() if self.qualified else t.name
+        if ref.spacing and "." in ref.name:
+            return ref.name.replace(".", ref.spacing)
+        return ref.name
 
     def render(self, tape=None):
         """Produce the text of every file and the offsets of every entity.
@@ -276,7 +284,7 @@ def linecol(text, offset):
 
 
 def gen_world(tape, root, nfiles=1, qualified=False, max_refs=16, boxes=True, wraps=True,
-              vals=False, layout=True, subdirs=False, min_defs=2):
+              vals=False, layout=True, subdirs=False, min_defs=2, spaced_names=True):
     """Draw a world.  Names are globally unique (d<i>, b<i>, u<i>, w<i>)."""
     w = World()
     w.qualified = qualified
@@ -405,6 +413,8 @@ def gen_world(tape, root, nfiles=1, qualified=False, max_refs=16, boxes=True, wr
                     w.refs.append(r)
     for r in w.refs:
         r.key = r.sid()
+        if qualified and spaced_names and tape.chance(1, 4, "spaced-name"):
+            r.spacing = tape.pick([" . ", ".\n", " .", ". "], "spacing")
     w.render()
     return w
 
